@@ -33,7 +33,12 @@ func init() {
 		if in.lastNow != nil {
 			lo = in.lastNow
 		}
-		in.assume(tb.And(tb.Sle(lo, t), tb.Slt(t, tb.Const(64, 1<<61))))
+		// non-decreasing clock: the witness "same instant as the previous reading" always exists
+		w := uint64(1)
+		if in.modelOK && in.concreteModel == nil {
+			w = in.evalModel(lo)
+		}
+		in.constrainFresh(t, w, tb.And(tb.Sle(lo, t), tb.Slt(t, tb.Const(64, 1<<61))))
 		in.lastNow = t
 		return in.mkTime(t)
 	})
@@ -116,7 +121,7 @@ func (in *Exec) calendarField(name string, ns *Term, lo, hi int64) *Term {
 		return v.(*Term)
 	}
 	v := in.freshVar(name, 64)
-	in.assume(in.tb.And(in.tb.Sle(in.intConst(lo), v), in.tb.Sle(v, in.intConst(hi))))
+	in.constrainFresh(v, uint64(lo), in.tb.And(in.tb.Sle(in.intConst(lo), v), in.tb.Sle(v, in.intConst(hi))))
 	in.ghost[key] = v
 	return v
 }
